@@ -440,3 +440,360 @@ Proof.
     + exists (b, a). split; [rewrite norm_swap; unfold norm; cbn [fst snd]; assert (E : (a <=? b) = true) by lia; rewrite E; reflexivity|].
       apply pairwise_spec. exists l1, l2. exact H.
 Qed.
+
+(* ================================================================== proposed repair of requests_aggregation
+   (aggregate_fixed in Model/Disjoint.v): groups are preserved *)
+(* ---------- list helpers ---------- *)
+Lemma id_at_set_nth_same : forall (ids : list rid) j v, (j < length ids)%nat -> id_at (set_nth j v ids) j = v.
+Proof.
+  unfold id_at. induction ids as [|x t IH]; intros j v H; cbn in H; [lia|].
+  destruct j; cbn [set_nth nth]; [reflexivity|]. apply IH. lia.
+Qed.
+
+Lemma id_at_set_nth_other : forall (ids : list rid) j k v, k <> j -> id_at (set_nth j v ids) k = id_at ids k.
+Proof.
+  unfold id_at. induction ids as [|x t IH]; intros j k v H; [destruct j; reflexivity|].
+  destruct j, k; cbn [set_nth nth]; try reflexivity; try lia. apply IH. lia.
+Qed.
+
+Lemma set_nth_length {A} : forall (l : list A) j v, length (set_nth j v l) = length l.
+Proof. induction l as [|x t IH]; intros [|j] v; cbn; try reflexivity. rewrite IH. reflexivity. Qed.
+
+Lemma remove_first_In x r l : In x (remove_first r l) -> In x l.
+Proof.
+  induction l as [|y t IH]; cbn [remove_first]; [tauto|]. destruct (zlist_eqb r y); [intros H; right; exact H|].
+  intros [<-|H]; [left; reflexivity|right; apply IH; exact H].
+Qed.
+
+Lemma remove_first_keep x r l : In x l -> x <> r -> In x (remove_first r l).
+Proof.
+  induction l as [|y t IH]; cbn [remove_first]; [tauto|]. intros [<-|H] Hne.
+  - destruct (zlist_eqb r y) eqn:E; [apply zlist_eqb_iff in E; congruence|left; reflexivity].
+  - destruct (zlist_eqb r y); [exact H|right; apply IH; assumption].
+Qed.
+
+Lemma remove_first_nodup r l : NoDup l -> NoDup (remove_first r l) /\ ~ In r (remove_first r l).
+Proof.
+  induction l as [|y t IH]; cbn [remove_first]; intros Hnd; [split; [constructor|tauto]|].
+  inversion Hnd as [|? ? Hny Hnt]; subst. destruct (zlist_eqb r y) eqn:E.
+  - apply zlist_eqb_iff in E. subst. split; assumption.
+  - destruct (IH Hnt) as (H1 & H2). split.
+    + constructor; [|exact H1]. intros H. apply Hny. eapply remove_first_In. exact H.
+    + intros [->|H]; [rewrite zlist_eqb_refl in E; discriminate|exact (H2 H)].
+Qed.
+
+Lemma rid_remove_all_In x r l : In x (rid_remove_all r l) <-> In x l /\ x <> r.
+Proof.
+  induction l as [|y t IH]; cbn [rid_remove_all In]; [tauto|]. destruct (zlist_eqb r y) eqn:E.
+  - apply zlist_eqb_iff in E. subst. rewrite IH. split; [tauto|]. intros ([->|H] & Hne); [congruence|tauto].
+  - cbn [In]. rewrite IH. split.
+    + intros [<-|(H & Hne)]; [split; [left; reflexivity|]|tauto].
+      intros ->. rewrite zlist_eqb_refl in E. discriminate.
+    + intros ([<-|H] & Hne); [left; reflexivity|right; tauto].
+Qed.
+
+Lemma take_seteq_spec a : forall l l', take_seteq a l = Some l' ->
+  exists b0, set_eq a b0 = true /\ forall b, In b l <-> b = b0 \/ In b l'.
+Proof.
+  induction l as [|b t IH]; intros l' H; cbn [take_seteq] in H; [discriminate|].
+  destruct (set_eq a b) eqn:E.
+  - injection H as <-. exists b. split; [exact E|]. intros x. cbn [In]. split; [intros [<-|Hx]; tauto|intros [->|Hx]; tauto].
+  - destruct (take_seteq a t) as [t'|] eqn:Et; [|discriminate]. injection H as <-.
+    destruct (IH t' eq_refl) as (b0 & Hb0 & Hiff). exists b0. split; [exact Hb0|].
+    intros x. cbn [In]. rewrite Hiff. tauto.
+Qed.
+
+Lemma ms_eq_cover : forall l1 l2, ms_eq l1 l2 = true -> forall b, In b l2 -> exists a, In a l1 /\ set_eq a b = true.
+Proof.
+  induction l1 as [|a t IH]; intros l2 H b Hb; cbn [ms_eq] in H.
+  - destruct l2; [destruct Hb|discriminate].
+  - destruct (take_seteq a l2) as [l2'|] eqn:Et; [|discriminate].
+    destruct (take_seteq_spec a l2 l2' Et) as (b0 & Hb0 & Hiff). apply Hiff in Hb. destruct Hb as [->|Hb].
+    + exists a. split; [left; reflexivity|exact Hb0].
+    + destruct (IH l2' H b Hb) as (a' & Ha' & Hs). exists a'. split; [right; exact Ha'|exact Hs].
+Qed.
+
+Lemma shape_In s r gs : In s (shape r gs) <->
+  exists d, In d gs /\ In r (members d) /\ s = rid_remove_all r (members d).
+Proof.
+  unfold shape. rewrite in_map_iff. split.
+  - intros (d & <- & Hd). apply filter_In in Hd. destruct Hd as (Hd & Hm). apply rid_mem_In in Hm.
+    exists d. repeat split; assumption.
+  - intros (d & Hd & Hm & ->). exists d. split; [reflexivity|]. apply filter_In. split; [exact Hd|].
+    apply rid_mem_In. exact Hm.
+Qed.
+
+Lemma in_some_spec r gs : in_some r gs = true <-> exists d, In d gs /\ In r (members d).
+Proof.
+  unfold in_some. rewrite existsb_exists. split; intros (d & Hd & H); exists d; split; try assumption;
+    apply rid_mem_In; exact H.
+Qed.
+
+(* ---------- invariant ---------- *)
+Definition atoms_disjoint (x y : rid) : Prop := forall a, In a x -> ~ In a y.
+
+Record Inv (st : astate) : Prop := {
+  inv_range : forall k, In k (s_local st) -> (k < length (s_ids st))%nat;
+  inv_nonempty : forall k, In k (s_local st) -> id_at (s_ids st) k <> [];
+  inv_atoms : forall k l, In k (s_local st) -> In l (s_local st) -> k <> l ->
+              atoms_disjoint (id_at (s_ids st) k) (id_at (s_ids st) l);
+  inv_members : forall d m, In d (s_groups st) -> In m (members d) ->
+                exists k, In k (s_local st) /\ id_at (s_ids st) k = m;
+  inv_nodup : forall d, In d (s_groups st) -> NoDup (members d)
+}.
+
+Lemma agg_find_fixed_spec rqs st i : forall cand j,
+  agg_find_fixed rqs st i cand = Some j ->
+  In j cand /\ id_at (s_ids st) i <> id_at (s_ids st) j /\
+  same_disj_fixed (id_at (s_ids st) i) (id_at (s_ids st) j) (s_groups st) = true.
+Proof.
+  induction cand as [|c t IH]; intros j H; cbn [agg_find_fixed] in H; [discriminate|].
+  match type of H with (if ?c then _ else _) = _ => destruct c eqn:E end.
+  - injection H as <-. rewrite !andb_true_iff in E. destruct E as (((E1 & _) & E3) & _).
+    split; [left; reflexivity|]. split; [|exact E3].
+    intros Heq. rewrite Heq, zlist_eqb_refl in E1. discriminate.
+  - destruct (IH j H) as (H1 & H2). split; [right; exact H1|exact H2].
+Qed.
+
+Lemma nonempty_app_neq (old ri : rid) : ri <> [] -> old ++ ri <> old.
+Proof.
+  intros Hne Heq. assert (H : length (old ++ ri) = length old) by (rewrite Heq; reflexivity).
+  rewrite app_length in H. destruct ri; [congruence|cbn in H; lia].
+Qed.
+
+
+Lemma NoDup_snoc {A} (l : list A) x : NoDup l -> ~ In x l -> NoDup (l ++ [x]).
+Proof.
+  induction l as [|y t IH]; intros Hnd Hx; cbn [app]; [constructor; [tauto|constructor]|].
+  inversion Hnd as [|? ? Hny Hnt]; subst. constructor.
+  - rewrite in_app_iff. intros [H|[H|[]]]; [exact (Hny H)|]. apply Hx. left; symmetry; exact H.
+  - apply IH; [exact Hnt|]. intros H. apply Hx. right; exact H.
+Qed.
+
+Definition rename (ri new : rid) (d : grp) : grp :=
+  if rid_mem ri (members d) then mkG (gid d) (remove_first ri (members d) ++ [new]) else d.
+
+Lemma agg_step_fixed_unfold rqs st i j :
+  agg_find_fixed rqs st i (s_local st) = Some j ->
+  agg_step_fixed rqs st i =
+    let ri := id_at (s_ids st) i in
+    let old := id_at (s_ids st) j in
+    let new := old ++ ri in
+    mkS (set_nth j new (s_ids st)) (filter (fun k => negb (Nat.eqb k i)) (s_local st))
+        (filter (fun d => negb (rid_mem old (members d))) (map (rename ri new) (s_groups st))).
+Proof. intros H. unfold agg_step_fixed. rewrite H. reflexivity. Qed.
+
+Lemma rename_members ri new d m :
+  NoDup (members d) -> In m (members (rename ri new d)) ->
+  m = new \/ (In m (members d) /\ m <> ri).
+Proof.
+  unfold rename. intros Hnd. destruct (rid_mem ri (members d)) eqn:E.
+  - cbn [members]. rewrite in_app_iff. intros [H|[<-|[]]]; [right|left; reflexivity].
+    split; [eapply remove_first_In; exact H|]. intros ->. exact (proj2 (remove_first_nodup ri _ Hnd) H).
+  - intros H. right. split; [exact H|]. intros ->. apply rid_mem_In in H. congruence.
+Qed.
+
+Lemma rename_keeps ri new d m : In m (members d) -> m <> ri -> In m (members (rename ri new d)).
+Proof.
+  unfold rename. intros H Hne. destruct (rid_mem ri (members d)); [|exact H].
+  cbn [members]. apply in_or_app. left. apply remove_first_keep; assumption.
+Qed.
+
+Lemma rename_new ri new d : In ri (members d) -> In new (members (rename ri new d)).
+Proof.
+  unfold rename. intros H. apply rid_mem_In in H. rewrite H. cbn [members]. apply in_or_app. right. left. reflexivity.
+Qed.
+
+Lemma step_preserves rqs st i :
+  Inv st -> In i (s_local st) ->
+  let st' := agg_step_fixed rqs st i in
+  Inv st' /\ (forall a b, Covered (s_groups st) a b -> Covered (s_groups st') a b) /\
+  incl (s_local st') (s_local st).
+Proof.
+  intros HI Hi. cbn zeta. destruct (agg_find_fixed rqs st i (s_local st)) as [j|] eqn:Ef.
+  2:{ unfold agg_step_fixed. rewrite Ef. split; [exact HI|]. split; [auto|apply incl_refl]. }
+  rewrite (agg_step_fixed_unfold _ _ _ _ Ef). cbn zeta.
+  destruct (agg_find_fixed_spec _ _ _ _ _ Ef) as (Hj & Hne & Hsd).
+  set (ids := s_ids st) in *. set (ri := id_at ids i) in *. set (old := id_at ids j) in *.
+  set (new := old ++ ri). set (gs := s_groups st) in *.
+  destruct HI as [Hrange Hnonempty Hatoms Hmembers Hnodup]. fold ids gs in Hrange, Hnonempty, Hatoms, Hmembers, Hnodup.
+  assert (Hij : i <> j) by (intros ->; apply Hne; reflexivity).
+  assert (Hri : ri <> []) by (apply Hnonempty; exact Hi).
+  assert (Hold : old <> []) by (apply Hnonempty; exact Hj).
+  assert (Hnew_fresh : forall k, In k (s_local st) -> id_at ids k <> new).
+  { intros k Hk Heq. destruct (Nat.eq_dec k j) as [->|Hkj].
+    - fold old in Heq. symmetry in Heq. exact (nonempty_app_neq old ri Hri Heq).
+    - destruct old as [|a o'] eqn:Eo; [congruence|].
+      apply (Hatoms k j Hk Hj Hkj a).
+      + rewrite Heq. unfold new. left; reflexivity.
+      + fold old. rewrite Eo. left; reflexivity. }
+  assert (Hnew_notin : forall d, In d gs -> ~ In new (members d)).
+  { intros d Hd Hin. destruct (Hmembers d new Hd Hin) as (k & Hk & Hid). exact (Hnew_fresh k Hk Hid). }
+  assert (Hidj : id_at (set_nth j new ids) j = new) by (apply id_at_set_nth_same; apply Hrange; exact Hj).
+  assert (Hidk : forall k, k <> j -> id_at (set_nth j new ids) k = id_at ids k)
+    by (intros k Hk; apply id_at_set_nth_other; exact Hk).
+  assert (Hloc : forall k, In k (filter (fun k => negb (Nat.eqb k i)) (s_local st)) <-> In k (s_local st) /\ k <> i).
+  { intros k. rewrite filter_In. split; intros (H1 & H2); split; try assumption.
+    - intros ->. rewrite Nat.eqb_refl in H2. discriminate.
+    - apply negb_true_iff. apply Nat.eqb_neq. exact H2. }
+  (* a member of a surviving group is the id of a request that is still there *)
+  assert (Hsurv : forall d m, In d gs -> ~ In old (members (rename ri new d)) -> In m (members (rename ri new d)) ->
+                  exists k, (In k (s_local st) /\ k <> i) /\ id_at (set_nth j new ids) k = m).
+  { intros d m Hd Hnold Hm. destruct (rename_members ri new d m (Hnodup d Hd) Hm) as [->|(Hm' & Hmri)].
+    - exists j. split; [split; [exact Hj|congruence]|exact Hidj].
+    - destruct (Hmembers d m Hd Hm') as (k & Hk & Hid). exists k. split; [split; [exact Hk|]|].
+      + intros ->. apply Hmri. symmetry. exact Hid.
+      + rewrite Hidk; [exact Hid|]. intros ->. apply Hnold. fold old in Hid. rewrite Hid. exact Hm. }
+  split; [|split].
+  - (* invariant *)
+    constructor; cbn [s_ids s_local s_groups].
+    + intros k Hk. apply Hloc in Hk. rewrite set_nth_length. apply Hrange. tauto.
+    + intros k Hk. apply Hloc in Hk. destruct Hk as (Hk & _). destruct (Nat.eq_dec k j) as [->|Hkj].
+      * rewrite Hidj. unfold new. destruct old; [congruence|discriminate].
+      * rewrite Hidk by exact Hkj. apply Hnonempty. exact Hk.
+    + intros k l Hk Hl Hkl. apply Hloc in Hk, Hl. destruct Hk as (Hk & Hki), Hl as (Hl & Hli).
+      destruct (Nat.eq_dec k j) as [->|Hkj]; destruct (Nat.eq_dec l j) as [->|Hlj]; try congruence.
+      * rewrite Hidj, (Hidk l Hlj). intros a Ha. unfold new in Ha. apply in_app_or in Ha. destruct Ha as [Ha|Ha].
+        -- apply (Hatoms j l Hj Hl Hkl a). exact Ha.
+        -- apply (Hatoms i l Hi Hl (not_eq_sym Hli) a). exact Ha.
+      * rewrite Hidj, (Hidk k Hkj). intros a Ha Hb. unfold new in Hb. apply in_app_or in Hb. destruct Hb as [Hb|Hb].
+        -- apply (Hatoms k j Hk Hj Hkl a); assumption.
+        -- apply (Hatoms k i Hk Hi Hki a); assumption.
+      * rewrite (Hidk k Hkj), (Hidk l Hlj). apply Hatoms; assumption.
+    + intros d' m Hd' Hm. apply filter_In in Hd'. destruct Hd' as (Hd' & Hnold).
+      apply in_map_iff in Hd'. destruct Hd' as (d & <- & Hd).
+      assert (Hno : ~ In old (members (rename ri new d))).
+      { intros H. apply rid_mem_In in H. rewrite H in Hnold. discriminate. }
+      destruct (Hsurv d m Hd Hno Hm) as (k & Hk & Hid). exists k. split; [apply Hloc; exact Hk|exact Hid].
+    + intros d' Hd'. apply filter_In in Hd'. destruct Hd' as (Hd' & _).
+      apply in_map_iff in Hd'. destruct Hd' as (d & <- & Hd). unfold rename.
+      destruct (rid_mem ri (members d)); [|apply Hnodup; exact Hd]. cbn [members].
+      apply NoDup_snoc; [apply remove_first_nodup; apply Hnodup; exact Hd|].
+      intros H. apply (Hnew_notin d Hd). eapply remove_first_In. exact H.
+  - (* declared pairs stay declared *)
+    cbn [s_groups]. intros a b (d & x & y & Hd & Hx & Hy & Ha & Hb & Hxy).
+    assert (Hgroup : forall d0 x0 y0, In d0 gs -> ~ In old (members d0) -> In x0 (members d0) -> In y0 (members d0) ->
+                     In a x0 -> In b y0 -> x0 <> y0 ->
+                     Covered (filter (fun d => negb (rid_mem old (members d))) (map (rename ri new) gs)) a b).
+    { intros d0 x0 y0 Hd0 Hno Hx0 Hy0 Ha0 Hb0 Hxy0.
+      assert (Hno' : ~ In old (members (rename ri new d0))).
+      { intros H. destruct (rename_members ri new d0 old (Hnodup d0 Hd0) H) as [He|(He & _)]; [|exact (Hno He)].
+        symmetry in He. exact (nonempty_app_neq old ri Hri He). }
+      assert (Hin : In (rename ri new d0) (filter (fun d => negb (rid_mem old (members d))) (map (rename ri new) gs))).
+      { apply filter_In. split; [apply in_map; exact Hd0|]. apply negb_true_iff.
+        destruct (rid_mem old (members (rename ri new d0))) eqn:E; [apply rid_mem_In in E; contradiction|reflexivity]. }
+      destruct (list_eq_dec Z.eq_dec x0 ri) as [Hxr|Hxr]; destruct (list_eq_dec Z.eq_dec y0 ri) as [Hyr|Hyr].
+      - congruence.
+      - subst x0. exists (rename ri new d0), new, y0. repeat split; try assumption.
+        + apply rename_new. exact Hx0.
+        + apply rename_keeps; assumption.
+        + unfold new. apply in_or_app. right. exact Ha0.
+        + intros <-. exact (Hnew_notin d0 Hd0 Hy0).
+      - subst y0. exists (rename ri new d0), x0, new. repeat split; try assumption.
+        + apply rename_keeps; assumption.
+        + apply rename_new. exact Hy0.
+        + unfold new. apply in_or_app. right. exact Hb0.
+        + intros ->. exact (Hnew_notin d0 Hd0 Hx0).
+      - exists (rename ri new d0), x0, y0. repeat split; try assumption; apply rename_keeps; assumption. }
+    destruct (in_dec (list_eq_dec Z.eq_dec) old (members d)) as [Hoin|Honot].
+    2:{ apply (Hgroup d x y); assumption. }
+    (* the group is deleted: a group of ri with the same other members takes over *)
+    assert (Hshape : exists d', In d' gs /\ In ri (members d') /\
+                                set_eq (rid_remove_all ri (members d')) (rid_remove_all old (members d)) = true).
+    { unfold same_disj_fixed in Hsd. fold ri old gs in Hsd.
+      assert (Hio : in_some old gs = true) by (apply in_some_spec; exists d; split; assumption).
+      rewrite Hio in Hsd. destruct (in_some ri gs); [|discriminate].
+      assert (Hs : In (rid_remove_all old (members d)) (shape old gs)).
+      { apply shape_In. exists d. repeat split; assumption. }
+      destruct (ms_eq_cover _ _ Hsd _ Hs) as (s1 & Hs1 & Hse). apply shape_In in Hs1.
+      destruct Hs1 as (d' & Hd' & Hrid' & ->). exists d'. repeat split; assumption. }
+    destruct Hshape as (d' & Hd' & Hrid' & Hse). rewrite set_eq_spec in Hse.
+    assert (Hno' : ~ In old (members d')).
+    { intros H. assert (H' : In old (rid_remove_all ri (members d'))) by (apply rid_remove_all_In; split; [exact H|congruence]).
+      apply Hse in H'. apply rid_remove_all_In in H'. destruct H' as (_ & H'). congruence. }
+    assert (Hmove : forall z, In z (members d) -> z <> old -> In z (members d') /\ z <> ri).
+    { intros z Hz Hzo. apply rid_remove_all_In. apply Hse. apply rid_remove_all_In. split; assumption. }
+    assert (Hin : In (rename ri new d') (filter (fun d => negb (rid_mem old (members d))) (map (rename ri new) gs))).
+    { apply filter_In. split; [apply in_map; exact Hd'|]. apply negb_true_iff.
+      destruct (rid_mem old (members (rename ri new d'))) eqn:E; [|reflexivity]. apply rid_mem_In in E.
+      destruct (rename_members ri new d' old (Hnodup d' Hd') E) as [He|(He & _)]; [|contradiction].
+      symmetry in He. exfalso. exact (nonempty_app_neq old ri Hri He). }
+    destruct (list_eq_dec Z.eq_dec x old) as [Hxo|Hxo]; destruct (list_eq_dec Z.eq_dec y old) as [Hyo|Hyo].
+    + congruence.
+    + subst x. destruct (Hmove y Hy Hyo) as (Hy' & Hyr).
+      exists (rename ri new d'), new, y. repeat split; try assumption.
+      * apply rename_new. exact Hrid'.
+      * apply rename_keeps; assumption.
+      * unfold new. apply in_or_app. left. exact Ha.
+      * intros <-. exact (Hnew_notin d' Hd' Hy').
+    + subst y. destruct (Hmove x Hx Hxo) as (Hx' & Hxr).
+      exists (rename ri new d'), x, new. repeat split; try assumption.
+      * apply rename_keeps; assumption.
+      * apply rename_new. exact Hrid'.
+      * unfold new. apply in_or_app. left. exact Hb.
+      * intros ->. exact (Hnew_notin d' Hd' Hx').
+    + destruct (Hmove x Hx Hxo) as (Hx' & Hxr). destruct (Hmove y Hy Hyo) as (Hy' & Hyr).
+      exists (rename ri new d'), x, y. repeat split; try assumption; apply rename_keeps; assumption.
+  - cbn [s_local]. intros k Hk. apply Hloc in Hk. tauto.
+Qed.
+
+Lemma step_keeps_local rqs st i k : In k (s_local st) -> k <> i -> In k (s_local (agg_step_fixed rqs st i)).
+Proof.
+  intros Hk Hne. unfold agg_step_fixed. destruct (agg_find_fixed rqs st i (s_local st)); [|exact Hk].
+  cbn [s_local]. apply filter_In. split; [exact Hk|]. apply negb_true_iff. apply Nat.eqb_neq. exact Hne.
+Qed.
+
+Lemma fold_preserves rqs : forall l st,
+  NoDup l -> (forall k, In k l -> In k (s_local st)) -> Inv st ->
+  let st' := fold_left (agg_step_fixed rqs) l st in
+  Inv st' /\ (forall a b, Covered (s_groups st) a b -> Covered (s_groups st') a b).
+Proof.
+  induction l as [|i t IH]; intros st Hnd Hin HI; cbn [fold_left]; [split; [exact HI|auto]|].
+  inversion Hnd as [|? ? Hni Hnt]; subst.
+  destruct (step_preserves rqs st i HI (Hin i (or_introl eq_refl))) as (HI1 & Hc1 & _).
+  destruct (IH (agg_step_fixed rqs st i) Hnt) as (HI2 & Hc2).
+  - intros k Hk. apply step_keeps_local; [apply Hin; right; exact Hk|]. intros ->. contradiction.
+  - exact HI1.
+  - split; [exact HI2|]. intros a b H. apply Hc2, Hc1. exact H.
+Qed.
+
+Lemma inv_no_stale st : Inv st -> no_stale (final_ids st) (s_groups st) = true.
+Proof.
+  intros HI. unfold no_stale, final_ids. apply forallb_forall. intros d Hd. apply forallb_forall. intros m Hm.
+  apply rid_mem_In. destruct (inv_members st HI d m Hd Hm) as (k & Hk & <-). apply in_map. exact Hk.
+Qed.
+
+(* groups_preserved for the repaired aggregation: every pair declared disjoint is still declared for the requests
+   that now carry it, and no group names a request that no longer exists.
+   Hypothesis = well-formed input (Inv of the initial state): request ids are non-empty and share no atom, groups
+   only name existing requests and name each at most once. *)
+Theorem aggregate_fixed_preserves rqs gs :
+  Inv (mkS (map a_id rqs) (seq 0 (length rqs)) gs) ->
+  let st := aggregate_fixed rqs gs in
+  (forall a b, Covered gs a b -> Covered (s_groups st) a b) /\
+  no_stale (final_ids st) (s_groups st) = true.
+Proof.
+  intros HI. cbn zeta. unfold aggregate_fixed.
+  destruct (fold_preserves rqs (seq 0 (length rqs)) (mkS (map a_id rqs) (seq 0 (length rqs)) gs)
+              (seq_NoDup _ _) (fun k H => H) HI) as (HI' & Hc).
+  split; [exact Hc|]. apply inv_no_stale. exact HI'.
+Qed.
+
+(* non-vacuity: the K2 / K3 witnesses are well-formed inputs, and the repaired aggregation keeps their pairs *)
+Lemma k2_inv : Inv (mkS (map a_id k2_rqs) (seq 0 (length k2_rqs)) k2_groups).
+Proof.
+  constructor; cbn [s_ids s_local s_groups k2_rqs k2_groups map a_id length seq].
+  - intros k H. cbn in H. cbn. lia.
+  - intros k H. cbn in H. unfold id_at. destruct H as [<-|[<-|[<-|[<-|[]]]]]; discriminate.
+  - intros k l Hk Hl Hkl a. unfold id_at. cbn in Hk, Hl.
+    destruct Hk as [<-|[<-|[<-|[<-|[]]]]]; destruct Hl as [<-|[<-|[<-|[<-|[]]]]]; try congruence;
+      cbn; intros [<-|[]] [H|[]]; discriminate.
+  - intros d m Hd Hm. unfold id_at. cbn in Hd.
+    destruct Hd as [<-|[<-|[<-|[]]]]; cbn in Hm;
+      repeat (destruct Hm as [<-|Hm]; [first [exists 0%nat; split; [cbn; tauto|reflexivity]
+                                            |exists 1%nat; split; [cbn; tauto|reflexivity]
+                                            |exists 2%nat; split; [cbn; tauto|reflexivity]
+                                            |exists 3%nat; split; [cbn; tauto|reflexivity]]|]); destruct Hm.
+  - intros d Hd. cbn in Hd. destruct Hd as [<-|[<-|[<-|[]]]]; cbn [members];
+      repeat constructor; cbn; intuition discriminate.
+Qed.
